@@ -4,6 +4,7 @@
 From Coq Require Import ZArith List Bool.
 From BV Require Import Lib.Cases Model.LaxSem Model.Restart Model.Pool
      Proofs.PoolJobs Proofs.PoolInv Proofs.PoolScan Proofs.PoolTick Proofs.PoolSup Proofs.PoolCor.
+From BV Require Import Proofs.PoolRefuted.
 From BV Require Lib.PyVal Gen.G_pool_shape Gen.K_timedout Proofs.PoolKernel.
 Import ListNotations.
 Open Scope Z_scope.
@@ -92,6 +93,16 @@ Definition c05_cfg := mkcfg 1 None (Some 5) None (Some 5) 1 false false.
 Definition c05_tr : list event :=
   [EApply None None None None; EAck 0 None 0; EAdvance 5; EScan true; ETick;
    EApply None None None None; EAck 1 None 1; EReady 1 None true 42].
+(* ---- not satisfied by the pinned tree (known finding C05:limit-without-scanner): a job's own
+   limit on a pool created without limits is enforced by nobody *)
+Theorem C05_per_job_limit_enforced_refuted :
+  exists c tr j x t,
+    get_job (run c tr) j = Some x /\ hard x = Some 3 /\ time_accepted x = Some t
+    /\ t + 3 <= now (run c tr) /\ ready x = false
+    /\ step (run c tr) (EScan false) = (with_sigs (run c tr) [], RNoScanner).
+Proof. exact limit_without_scanner. Qed.
+Print Assumptions C05_per_job_limit_enforced_refuted.
+
 Example C05_witness :
   let s := run c05_cfg c05_tr in
   map (fun x => (ready x, value x)) (jobs s) = [(true, Some (PTimeLimit (Some 5))); (true, Some (PValue 42))]
